@@ -211,6 +211,12 @@ func (fv *FuncVC) logAppend(key string, args []Val, ats []types.Type) string {
 	}
 	idx := n.S
 	st.ghost["log."+key+".n"] = Term{S: app("+", n.S, "1"), Sort: SMath}
+	// global order of logged calls: callseq(K, i)
+	seq := fv.ghostTerm(st, "seq", SMath)
+	sk := "log." + key + ".s"
+	sh := fv.heapTerm(st, sk, SMath)
+	st.heap[sk] = Term{S: app("store", sh.S, idx, seq.S), Sort: SMath}
+	st.ghost["seq"] = Term{S: app("+", seq.S, "1"), Sort: SMath}
 	return idx
 }
 
